@@ -490,3 +490,7 @@ def replay_sig(rp):
 
 REPLAY = dict(c13.REPLAY)
 REPLAY["sig"] = replay_sig
+from suites import thorough as _th, progenum as _pg
+GROUPS["thorough:enum-assignments"] = _th.only_thorough(_pg.g_f1)
+GROUPS["thorough:enum-augmented-assignments"] = _th.only_thorough(_pg.g_f2)
+GROUPS["thorough:enum-function-signatures"] = _th.only_thorough(_pg.g_f3)
